@@ -109,6 +109,8 @@ fn readbacks(cpu: &Cpu) -> (Vec<u8>, Vec<u8>) {
 }
 
 struct Log {
+    em_n: u64, // messages seen at the emission hook since the socket was attached (count, order-sensitive hash)
+    em_h: u64,
     w: Option<BufWriter<std::fs::File>>, // None = do not log events (summary only)
     id: u64,
     shadow: Option<Shadow>,
@@ -151,6 +153,15 @@ fn j_lines(v: &[String]) -> String {
 }
 
 impl Log {
+    /// everything the emission hook has seen since the last call (also folded into the whole-run emission digest)
+    fn take_msgs(&mut self) -> Vec<Vec<u8>> {
+        let msgs: Vec<Vec<u8>> = verif_hooks::sink_take().into_iter().map(|s| s.into_bytes()).collect();
+        for m in &msgs {
+            self.em_h = mix(self.em_h, hash_bytes(m));
+            self.em_n += 1;
+        }
+        msgs
+    }
     fn emit(&mut self, line: String) {
         if let Some(w) = self.w.as_mut() {
             let _ = writeln!(w, "{}", line);
@@ -167,7 +178,7 @@ impl Log {
                                self.id, j_u32s(&regs.vec19()), j_runs(&pokes), self.exit_addr >> 16, self.exit_addr & 0xffff);
             self.emit(line);
             self.shadow = Some(sh);
-            let _ = verif_hooks::sink_take();
+            let _ = self.take_msgs();
         }
         let mut batch: Vec<String> = if self.poll_no < self.schedule.len() { self.schedule[self.poll_no].clone() } else { Vec::new() };
         // re-driven runs: a batch is due after the recorded number of iterations - or, when the run makes no
@@ -198,7 +209,7 @@ impl Log {
         if self.batch.is_empty() && !self.log_every_poll {
             return;
         }
-        let msgs: Vec<Vec<u8>> = verif_hooks::sink_take().into_iter().map(|s| s.into_bytes()).collect();
+        let msgs: Vec<Vec<u8>> = self.take_msgs();
         for m in &msgs {
             self.h_msgs = mix(self.h_msgs, hash_bytes(m));
             self.n_msgs += 1;
@@ -219,7 +230,7 @@ impl Log {
             // a guest program that is interrupted faster than it can return is a driver mistake: stop it
             self.iters = self.max_iters;
         }
-        let msgs: Vec<Vec<u8>> = verif_hooks::sink_take().into_iter().map(|s| s.into_bytes()).collect();
+        let msgs: Vec<Vec<u8>> = self.take_msgs();
         for m in &msgs {
             self.h_msgs = mix(self.h_msgs, hash_bytes(m));
             self.n_msgs += 1;
@@ -344,7 +355,7 @@ pub fn run_elf(elf_path: &str, prog_args: &str, log: Option<&str>, schedule: Vec
 /// Cpu::run on a prepared Cpu with the logging / line-injection hooks installed.
 #[allow(clippy::too_many_arguments)]
 pub fn run_cpu(mut cpu: Cpu, log: Option<&str>, schedule: Vec<Vec<String>>, iter_sched: std::collections::VecDeque<(u64, Vec<String>)>, max_iters: u64, extra_polls: usize, first_id: u64, lite: bool, snap_every: u64) -> Result<RunSummary> {
-    let (out_tx, _out_rx) = mpsc::channel::<String>();
+    let (out_tx, out_rx) = mpsc::channel::<String>();
     let (in_tx, in_rx) = mpsc::channel::<String>();
     cpu.vh_attach_socket(Socket::from_channels(out_tx, in_rx));
     verif_hooks::sink_install();
@@ -353,7 +364,7 @@ pub fn run_cpu(mut cpu: Cpu, log: Option<&str>, schedule: Vec<Vec<String>>, iter
         None => None,
     };
     let lg = Rc::new(RefCell::new(Log {
-        w, id: first_id, shadow: None, schedule, poll_no: 0, batch: Vec::new(), in_tx, iters: 0, max_iters, stop_sent: false, exit_addr: cpu.exit_addr,
+        em_n: 0, em_h: 0, w, id: first_id, shadow: None, schedule, poll_no: 0, batch: Vec::new(), in_tx, iters: 0, max_iters, stop_sent: false, exit_addr: cpu.exit_addr,
         h_pcst: 0, h_msgs: 0, n_msgs: 0, extra_polls_after_schedule: extra_polls, log_every_poll: false, sums: Vec::new(), lite, pend_at_exit: false, snap_every, stall_at: u64::MAX, stall: 0, redriven: !iter_sched.is_empty(), iter_sched,
     }));
     let (l1, l2, l3) = (lg.clone(), lg.clone(), lg.clone());
@@ -371,17 +382,26 @@ pub fn run_cpu(mut cpu: Cpu, log: Option<&str>, schedule: Vec<Vec<String>>, iter
         Err(_) => "panic",
     };
     let mut l = lg.borrow_mut();
-    let msgs: Vec<Vec<u8>> = verif_hooks::sink_take().into_iter().map(|s| s.into_bytes()).collect();
+    let msgs: Vec<Vec<u8>> = l.take_msgs();
     for m in &msgs {
         l.h_msgs = mix(l.h_msgs, hash_bytes(m));
         l.n_msgs += 1;
     }
+    // what was handed to the transport (the socket's outgoing channel) over the whole run, against what the
+    // emission hook saw: two observations, recorded side by side (count + order-sensitive digest, 16-bit pieces)
+    let (mut tx_n, mut tx_h) = (0u64, 0u64);
+    for m in out_rx.try_iter() {
+        tx_h = mix(tx_h, hash_bytes(m.as_bytes()));
+        tx_n += 1;
+    }
+    let q = |h: u64| [(h >> 48) as u32 & 0xffff, (h >> 32) as u32 & 0xffff, (h >> 16) as u32 & 0xffff, h as u32 & 0xffff];
+    let txe: Vec<u32> = [vec![(l.em_n >> 16) as u32, l.em_n as u32 & 0xffff], q(l.em_h).to_vec(), vec![(tx_n >> 16) as u32, tx_n as u32 & 0xffff], q(tx_h).to_vec()].concat();
     let wr = l.shadow.as_mut().map(|s| s.diff(&cpu)).unwrap_or_default();
     let regs = regs_of(&cpu);
     let batch = l.batch.clone();
     let note = if res == "panic" { take_panic().unwrap_or_default() } else { String::new() };
-    let line = format!("{{\"k\":\"ret\",\"id\":{},\"res\":\"{}\",\"lines\":{},\"msgs\":{},\"post\":{},\"wr\":{},\"sum\":{},\"note\":{}}}",
-                       l.id, res, j_lines(&batch), j_msgs(&msgs), j_u32s(&regs.vec19()), j_pairs(&wr), sum_pair(cpu.vh_state_sum()), j_str(&note));
+    let line = format!("{{\"k\":\"ret\",\"id\":{},\"res\":\"{}\",\"lines\":{},\"msgs\":{},\"post\":{},\"wr\":{},\"sum\":{},\"txe\":{},\"note\":{}}}",
+                       l.id, res, j_lines(&batch), j_msgs(&msgs), j_u32s(&regs.vec19()), j_pairs(&wr), sum_pair(cpu.vh_state_sum()), j_u32s(&txe), j_str(&note));
     l.emit(line);
     if let Some(w) = l.w.as_mut() {
         w.flush()?;
@@ -904,6 +924,49 @@ pub fn run_run_program(args: &Args) -> Result<()> {
         } else {
             eprintln!("run-program: no padding makes the compare match fall into the last instruction (input selection failed)");
         }
+        // (c) the instruction that reaches the exit address is the very one that carries the total past a
+        //     multiple of the interval: its sync is due before the run reports success.  Input selection by
+        //     measuring silent runs (totals are linear in the loop count and the padding; no expected value)
+        let base_n = 8_700u32;
+        let r0 = run_program(&prog_count(base_n, 0), &elf_path, None, vec![], 200_000, 0, &mut rng, 0)?;
+        let mut picked: Option<(u32, u32)> = None;
+        if r0.res == "ok" && r0.sums.len() >= 2 {
+            let s0 = *r0.sums.last().unwrap() as i64;
+            let c = s0 - r0.sums[r0.sums.len() - 2] as i64;
+            let r1 = run_program(&prog_count(base_n + 1, 0), &elf_path, None, vec![], 200_000, 0, &mut rng, 0)?;
+            let r2 = run_program(&prog_count(base_n, 1), &elf_path, None, vec![], 200_000, 0, &mut rng, 0)?;
+            let per_n = *r1.sums.last().unwrap_or(&0) as i64 - s0;
+            let per_pad = *r2.sums.last().unwrap_or(&0) as i64 - s0;
+            let delta = 2_000_000i64 - s0;
+            let mut tries = 0;
+            'sel: for dn in 0..200i64 {
+                for pad in 0..24i64 {
+                    let add = per_n * dn + per_pad * pad;
+                    if per_n > 0 && per_pad > 0 && add >= delta && add < delta + c {
+                        let p = prog_count(base_n + dn as u32, pad as u32);
+                        let r = run_program(&p, &elf_path, None, vec![], 200_000, 0, &mut rng, 0)?;
+                        let k = r.sums.len();
+                        if r.res == "ok" && k >= 2 && r.sums[k - 1] >= 2_000_000 && r.sums[k - 2] < 2_000_000 {
+                            picked = Some((base_n + dn as u32, pad as u32));
+                            break 'sel;
+                        }
+                        tries += 1;
+                        if tries > 8 {
+                            break 'sel;
+                        }
+                    }
+                }
+            }
+        }
+        if let Some((n, pad)) = picked {
+            let p = prog_count(n, pad);
+            let log = format!("{}/thr_lite_{:02}.ndjson", outdir, progs.len() + 2);
+            let s = run_program_x(&p, &elf_path, Some(&log), vec![], 200_000, 0, &mut rng, 0, true)?;
+            total_events += s.events;
+            nprog += 1;
+        } else {
+            eprintln!("run-program: no loop count / padding makes the last instruction cross the first threshold (input selection failed)");
+        }
     }
     let _ = std::fs::remove_file(&elf_path);
     eprintln!("{{\"driver\":\"run-program\",\"events\":{},\"programs\":{},\"runs\":{}}}", total_events, nprog, nprog * 5);
@@ -1290,6 +1353,10 @@ pub fn run_tcp_lines(args: &Args) -> Result<()> {
         (vec![long(4090, ":zz\u{e9}\u{e9}\u{e9}\u{e9}:u8:ffcf30:77"), "u8:ffcf31:78".into()], vec![4000]),
         (vec![long(4083, ":u8:ffcf40:1"), long(8200, ":cmd:pause:x:u8:ffcf41:2"), "u8:ffcf42:3".into(), "".into(), "foo".into()], vec![100, 9000]),
         (vec!["ioport:c:ff".into(), "ioport:0:1".into(), "ioport:b:81".into(), "u8:fee00a:0f".into(), "u8:ffffda:ff".into()], vec![]),
+        // white-space-only lines (blank, tab, the CR of a CR LF blank line) are unknown lines: each is ignored on its
+        // own and must not leak into the line that follows it
+        (vec![" ".into(), "u8:ffcf50:21".into(), "\t".into(), "u8:ffcf51:22".into(), "\r".into(), "u8:ffcf52:23".into(), "  \t ".into(), "cmd:foo".into(), "u8:ffcf53:24".into(), "".into(), "u8:ffcf54:25".into()], vec![]),
+        (vec!["\r".into(), "u8:fee004:ff".into(), " ".into(), " ".into(), "u8:ffffd3:3c".into(), "\t\t".into(), "ioport:4:c3".into()], vec![1, 2, 3, 17, 18]),
     ];
     for _ in 0..(if tier == "thorough" { 30 } else { 3 }) {
         let n = 1 + rng.below(6);
